@@ -97,8 +97,60 @@ def p_mm_of(ip, args, kw, ctx):
     raise Unsupported("mm_of")
 
 
+def _spec_table(ip, name):
+    from .interp import Ctx
+    m = ip.P.modules["spec"]
+    r = ip.P.resolve_static(m, name)
+    return ip.static_value(r, Ctx())
+
+
+def p_day_bit(ip, args, kw, ctx):
+    import enum
+    from .sym import SymEnum
+    d = args[0]
+    table = _spec_table(ip, "DAY_BIT").d
+    if isinstance(d, enum.Enum):
+        return table[d.name]
+    if isinstance(d, SymEnum):
+        vals = [table[m.name] for m in d.members]
+        out = z3.IntVal(vals[-1])
+        for k in reversed(range(len(vals) - 1)):
+            out = z3.If(zi(d.idx) == k, z3.IntVal(vals[k]), out)
+        return simp(out)
+    from .interp import Unsupported
+    raise Unsupported("day_bit of " + type(d).__name__)
+
+
+def p_is_member(ip, args, kw, ctx):
+    import enum
+    from .sym import SymEnum
+    x, cls = args
+    return isinstance(x, cls) or (isinstance(x, SymEnum) and x.cls is cls)
+
+
+def p_pairwise_distinct(ip, args, kw, ctx):
+    from .sym import SymEnum, PySet, PyList
+    from .models import SymEnumList
+    from .interp import Unsupported
+    items = args[0]
+    if isinstance(items, (PySet, set, frozenset)):
+        return True
+    if isinstance(items, SymEnumList):
+        if ctx.entails(zi(items.n) > len(list(items.cls))):
+            return False       # pigeonhole: more elements than enum members
+        raise Unsupported("pairwise_distinct on a symbolic-length sequence that may be short")
+    xs = ip.iterate(items, ctx)
+    conj = []
+    for i in range(len(xs)):
+        for j in range(i):
+            e = ip.equals(xs[i], xs[j], ctx)
+            conj.append((not e) if isinstance(e, bool) else z3.Not(e))
+    return ip.conj(conj)
+
+
 def install(ip):
     ip.spec_prims.update({
         "crc16": p_crc16, "is_hex": p_is_hex, "amps_of": p_amps_of, "tenths": p_tenths, "utf8": p_utf8,
         "valid_hhmm": p_valid_hhmm, "hh_of": p_hh_of, "mm_of": p_mm_of,
+        "day_bit": p_day_bit, "is_member": p_is_member, "pairwise_distinct": p_pairwise_distinct,
     })
